@@ -51,8 +51,9 @@ PID = "C19"
 TRUSTED = [
     "Lean 4.33.0 kernel; axioms ⊆ {propext, Classical.choice, Quot.sound} (audited per run)",
     "hand-written model lean/Model/Forecast.lean: message-level reading of the grammar IR (GM), the verified "
-    "forecaster (derivatives + emptiness), the model of the code (positions + walkPos/walkNew), sliceG; tied to "
-    "/repo by this run's correspondence (generator-bounded)",
+    "forecaster (derivatives + emptiness), the model of the code (positions + walkPos/walkNew), sliceG (line by "
+    "line after slice_parties / PacketTruncator, node ids included); tied to /repo by this run's correspondence "
+    "(generator-bounded): real slice_parties == sliceG rule by rule, real predict == codeNexts == nexts per prefix",
     "the prefix parse is specified (all partial derivations of the history), not modelled: that the Earley "
     "parser returns exactly these is checked only through the compared forecasts (E3 models the parser)",
     "harness/impl/grammar_io.py grammar_to_json (real front end -> IR JSON), harness/impl/proto_real.py",
@@ -70,6 +71,7 @@ SIG_COMPLETE = "C19/complete-mismatch"
 SIG_MOUNT = "C19/mounting-path-invalid"
 SIG_SLICE = "C19/slice-mismatch"
 SIG_SLICE_EQ = "C19/slice-removes-first-equal-symbol"
+SIG_SLICE_LEFTREC = "C19/sliced-spec-left-recursive-forecast-recursion-error"
 # the two below name defects of the *parser* that predict() runs into (not of the forecasting code)
 SIG_PARSER_UNBOUNDED = "C19/prefix-parse-unbounded(C06-F32)"
 SIG_PARSER_UNBOUNDED_OTHER = "C19/prefix-parse-unbounded"
@@ -122,7 +124,7 @@ MAX_ADMISSIONS = 400_000
 # yielded tree).  A tree beyond the size bound = unbounded (decided at once); over the tree budget with all trees
 # within the bound = exponentially ambiguous but finite.
 SIZE_FACTOR = 6
-_STEPS = {"trees": 0, "adds": 0, "max_size": 0, "size_bound": 10 ** 9, "armed": False}
+_STEPS = {"trees": 0, "adds": 0, "max_size": 0, "size_bound": 10 ** 9, "armed": False, "copies": 0}
 
 
 def _install_step_counters():
@@ -151,6 +153,13 @@ def _install_step_counters():
             if _STEPS["adds"] > MAX_ADMISSIONS:
                 raise PrefixParseUnbounded()
         return orig_add(self, state)
+    from fandango.language.tree import DerivationTree
+    orig_deepcopy = DerivationTree.__deepcopy__
+
+    def counted_deepcopy(self, *a, **kw):
+        _STEPS["copies"] += 1
+        return orig_deepcopy(self, *a, **kw)
+    DerivationTree.__deepcopy__ = counted_deepcopy
     PacketIterativeParser.consume = consume
     colmod.Column.add = add
     PacketIterativeParser._c19_counted = True
@@ -180,8 +189,13 @@ def mset(js) -> list:
 # ------------------------------------------------------------------------------------------------
 
 def explore(grammar, cases: list[dict], max_trees: int = 2, check_complete_trees: bool = True,
-            has_nullable_nt: bool = False, grammar_nodes: int = 50) -> dict:
-    """walk the model's breadth-first list of prefixes on the real forecaster"""
+            has_nullable_nt: bool = False, grammar_nodes: int = 50, tree_budget: int = 10 ** 9) -> dict:
+    """walk the model's breadth-first list of prefixes on the real forecaster.
+
+    `tree_budget`: work budget of one exploration, counted in steps, not seconds: the number of DerivationTree
+    nodes deep-copied so far (what predict() spends its time on: `ForecastingResult.union` deep-copies the whole
+    result, mounting paths with their trees included, once per partial tree of the prefix parse); once it is used
+    up the remaining (longer) prefixes are skipped and counted."""
     from fandango.io.navigation.packetforecaster import PacketForecaster
     from harness.impl import proto_real as pr
     from harness.impl.grammar_io import check_valid
@@ -208,7 +222,11 @@ def explore(grammar, cases: list[dict], max_trees: int = 2, check_complete_trees
     party_ambiguous = {t for t, ps in pairs_of.items() if len(ps) >= 2}
     out["party_ambiguous_types"] = len(party_ambiguous)
 
+    copies0 = _STEPS["copies"]
     for case in cases:
+        if _STEPS["copies"] - copies0 > tree_budget:
+            out["cases_skipped_tree_budget"] = out.get("cases_skipped_tree_budget", 0) + 1
+            continue
         h = tuple(tm(j) for j in case["h"])
         model_next = mset(case["nexts"])
         model_code = mset(case["code"])
@@ -319,6 +337,65 @@ def explore(grammar, cases: list[dict], max_trees: int = 2, check_complete_trees
             elif pr.history_of(ct) != [tuple(x) for x in h]:
                 out["mismatch"].append({"h": [jm(x) for x in h], "kind": "complete-tree-history",
                                         "got": [jm(x) for x in pr.history_of(ct)]})
+    return out
+
+
+def probe_sliced_leftrec(sliced, cases: list[dict], vis, max_predicts: int = 24, depth: int = 3) -> dict:
+    """the sliced spec is left-recursive at message level although the spec is not (slicing a right-recursive
+    loop of invisible messages leaves `<s> ::= <s> | ...`): the verified forecaster does not apply, so the real
+    forecaster on the sliced spec is judged against the statement of C19_slice_cont directly - after the visible
+    history p it must offer every visible m such that some enumerated prefix h ++ [m] of the spec has the visible
+    part p ++ [m] - and must not raise.  Breadth first over real history trees, a few steps."""
+    from fandango.io.navigation.packetforecaster import PacketForecaster
+    from harness.impl import proto_real as pr
+    expected: dict[tuple, set] = {}
+    for c in cases:
+        h = [tm(j) for j in c["h"]]
+        if h and vis(h[-1]):
+            expected.setdefault(tuple(m for m in h[:-1] if vis(m)), set()).add(h[-1])
+    out: dict = {"predicts": 0, "raised": None, "missing": []}
+    fc = PacketForecaster(sliced)
+    frontier = [((), pr.start_tree())]
+    contents: dict = {}
+    for _d in range(depth + 1):
+        nxt = []
+        for p, t in frontier:
+            if out["predicts"] >= max_predicts:
+                return out
+            try:
+                signal.setitimer(signal.ITIMER_REAL, PREDICT_TIMEOUT_S)
+                _STEPS.update(trees=0, adds=0, max_size=0, armed=True, size_bound=10 ** 9)
+                try:
+                    opts, _comp, _res = pr.real_predict(fc, t)
+                finally:
+                    _STEPS["armed"] = False
+                    signal.setitimer(signal.ITIMER_REAL, 0)
+            except (PrefixParseTooAmbiguous, PrefixParseUnbounded, PredictTimeout):
+                out["inconclusive"] = out.get("inconclusive", 0) + 1
+                fc = PacketForecaster(sliced)
+                continue
+            except RecursionError as e:
+                out["raised"] = {"h": [jm(m) for m in p], "error": "RecursionError: " + str(e)[:80]}
+                return out
+            except Exception as e:  # noqa
+                out["raised"] = {"h": [jm(m) for m in p], "error": type(e).__name__ + ": " + str(e)[:120]}
+                return out
+            out["predicts"] += 1
+            real = set(opts.keys())
+            miss = sorted(m for m in expected.get(p, set()) if m not in real)
+            if miss:
+                out["missing"].append({"h": [jm(m) for m in p], "missing": [jm(m) for m in miss],
+                                       "real": [jm(m) for m in sorted(real)]})
+            for m, pk in sorted(opts.items()):
+                if m[0].startswith("!"):
+                    continue
+                if m[2] not in contents:
+                    contents[m[2]] = pr.content_of(sliced, m[2])
+                try:
+                    nxt.append((p + (m,), pr.mount(next(iter(pk.paths)), m, contents[m[2]])))
+                except Exception:  # noqa
+                    pass
+        frontier = nxt
     return out
 
 
@@ -437,7 +514,8 @@ def run_grammar(job: dict) -> dict:
         res["n_prefixes"] = len(ans["cases"])
         res["n_complete"] = sum(1 for c in ans["cases"] if c["complete"])
         res["max_positions"] = max((c["positions"] for c in ans["cases"]), default=0)
-        res["explore"] = explore(grammar, ans["cases"], has_nullable_nt=nullable_nt(gj), grammar_nodes=ir_nodes(gj))
+        res["explore"] = explore(grammar, ans["cases"], has_nullable_nt=nullable_nt(gj), grammar_nodes=ir_nodes(gj),
+                                 tree_budget=job.get("tree_budget", 10 ** 9))
         # ---- slicing
         for keep, ign in job.get("slices", []):
             sres: dict = {"keep": keep, "ignore_receivers": ign}
@@ -458,20 +536,23 @@ def run_grammar(job: dict) -> dict:
                 sres["real_rules"] = [x for x in a if x not in b][:3]
                 sres["model_rules"] = [x for x in b if x not in a][:3]
             sres["slice_cert"] = mj["cert"]
+            sres["rules_deleted"] = len(gj["rules"]) - len(sgj["rules"])
             has_start = any(r[0] == "<start>" for r in sgj["rules"])
             sres["start_kept"] = has_start
+
+            def vis(m):
+                if ign:
+                    return m[0] in keep
+                return m[1] is None or m[0] in keep or m[1] in keep
             if has_start:
                 sans = driver_ask("drv_proto", [{"op": "enum", "grammar": sgj, "start": "<start>", "cap": cap,
                                                  "depth": job["depth"], "limit": job["limit"]}])[0]
                 sres["certs"] = sans["certs"]
                 if sans["certs"]["rank_ok"] and sans["certs"]["productive"] and sans["certs"]["msg_only"]:
                     sres["explore"] = explore(sliced, sans["cases"], check_complete_trees=True,
-                                              has_nullable_nt=nullable_nt(sgj), grammar_nodes=ir_nodes(sgj))
+                                              has_nullable_nt=nullable_nt(sgj), grammar_nodes=ir_nodes(sgj),
+                                              tree_budget=job.get("tree_budget", 10 ** 9))
                     # visible part of a prefix of G is a prefix of the sliced spec; of an interaction, an interaction
-                    def vis(m):
-                        if ign:
-                            return m[0] in keep
-                        return m[1] is None or m[0] in keep or m[1] in keep
                     proj: dict[tuple, bool] = {}
                     for c in ans["cases"]:
                         p = tuple(tm(j) for j in c["h"] if vis(tm(j)))
@@ -487,6 +568,9 @@ def run_grammar(job: dict) -> dict:
                     sres["projection_checked"] = len(hs)
                     sres["projection_bad"] = bad[:5]
                     sres["projection_bad_n"] = len(bad)
+                elif not sans["certs"]["rank_ok"] and sans["certs"]["msg_only"]:
+                    # the spec has no left recursion (checked above), its slice has
+                    sres["leftrec_probe"] = probe_sliced_leftrec(sliced, ans["cases"], vis)
             res["slices"].append(sres)
     except NotModelled as e:
         res["skipped"] = "not modelled: " + str(e)
@@ -527,6 +611,14 @@ CORPUS = [
      ["Fz", "Ex", "Th"]),
     ("same type visible and invisible", "<start> ::= (<Th:Fz:m1> | <Ex:Th:m1> | <Fz:Ex:m2>)\n", ["m1", "m2"],
      ["Fz", "Ex", "Th"]),
+    # slice_parties in several rounds: <y> is deleted in the first, <x> in the second, the reference to <x> in the third
+    ("helper rules invisible to Fz, three rounds",
+     "<start> ::= <Fz:Ex:m0> <x> (<Ex:Th:m1> | <Fz:Ex:m2> | <y>)* <z>{1,2}\n<x> ::= <Ex:Th:m1> <y>\n<y> ::= <Th:Ex:m3>?\n"
+     "<z> ::= <Ex:Th:m1> | <Th:Fz:m4> <y>\n", ["m0", "m1", "m2", "m3", "m4"], ["Fz", "Ex", "Th"]),
+    # slicing a right-recursive loop of invisible messages leaves a unit cycle `<s1> ::= <s1> | ...` (finding F53)
+    ("right-recursive loop invisible to Fz",
+     "<start> ::= <Fz:Ex:m2> <s1> <Fz:Ex:m3>\n<s1> ::= <Ex:Th:m0> <s1> | <Fz:Ex:m1> | <Th:Ex:m4> <s2>\n"
+     "<s2> ::= <Ex:Th:m0> <s1> | <Fz:Ex:m3>\n", ["m0", "m1", "m2", "m3", "m4"], ["Fz", "Ex", "Th"]),
     ("computed-free nesting: option inside bounded repetition inside star",
      "<start> ::= (<Fz:Ex:m0> (<Ex:Fz:m1> <Fz:Ex:m2>?){1,2})* <Ex:Fz:m3>\n", ["m0", "m1", "m2", "m3"], ["Fz", "Ex"]),
 ]
@@ -538,18 +630,26 @@ def corpus_spec(body: str, types: list[str], parties: list[str]) -> str:
 
 
 def make_jobs(run: Run, tier: str) -> list[dict]:
-    from harness.gen.protocols import ProtoGen, spec_text
+    from harness.gen.protocols import ProtoGen, hide_helper, spec_text
     rng = run.rng("grammars")
     n = 110 if tier == "quick" else 600
     depth = 6 if tier == "quick" else 8
     limit = 300 if tier == "quick" else 900
+    tree_budget = 120_000 if tier == "quick" else 1_500_000
     jobs = []
     for name, body, types, parties in CORPUS:
         slices = []
         if len(parties) == 3:
             slices = [[["Fz"], False], [["Fz", "Th"], False], [["Fz"], True]]
         jobs.append({"idx": len(jobs), "name": name, "spec": corpus_spec(body, types, parties), "depth": depth + 1,
-                     "limit": limit, "cap": None, "slices": slices})
+                     "limit": limit, "cap": None, "slices": slices, "tree_budget": tree_budget})
+    # minimised past disagreements (corpus/C19/*.json: replay files), run first like the hand-written specs
+    for f in sorted((VERIF / "corpus" / "C19").glob("*.json")):
+        rp = json.loads(f.read_text())
+        if rp.get("kind") in ("forecast", "slice") and rp.get("spec"):
+            jobs.append({"idx": len(jobs), "name": "corpus/" + f.name, "spec": rp["spec"], "depth": rp.get("depth", depth),
+                         "limit": rp.get("limit", limit), "cap": rp.get("cap"), "slices": rp.get("slices", []),
+                         "tree_budget": tree_budget})
     class FixedPairs(ProtoGen):
         """every message type travels between ONE pair of parties - the shape of the protocol specs in docs/
         (FTP, SMTP, DNS); the unrestricted generator lets a type occur with several pairs, which puts most
@@ -571,14 +671,20 @@ def make_jobs(run: Run, tier: str) -> list[dict]:
                   max_depth=rng.choice([2, 3, 3]))
         g = gen.grammar()
         slices = []
-        if n_parties == 3 and rng.random() < 0.8:
+        hidden = None
+        if n_parties == 3 and rng.random() < 0.3:
+            # a helper nonterminal whose messages are invisible to Fz: slice_parties deletes rules, several rounds
+            hidden = hide_helper(g, rng, ["Ex", "Th"])
+        if hidden is not None:
+            slices.append([["Fz"], rng.random() < 0.25])
+        elif n_parties == 3 and rng.random() < 0.8:
             keep = rng.choice([["Fz"], ["Fz", "Ex"], ["Ex"], ["Fz", "Th"], ["Th"]])
             slices.append([keep, rng.random() < 0.25])
         elif n_parties == 2 and rng.random() < 0.15:
             slices.append([["Fz"], True])
         cap = 3 if rng.random() < 0.08 else None
         jobs.append({"idx": len(jobs), "name": f"gen{i}", "spec": spec_text(g), "depth": depth, "limit": limit,
-                     "cap": cap, "slices": slices, "fixed_pairs": cls is FixedPairs})
+                     "cap": cap, "slices": slices, "fixed_pairs": cls is FixedPairs, "tree_budget": tree_budget})
     if os.environ.get("VERIF_C19_JOBS"):      # development only (seeded-change trials on a private worktree)
         jobs = jobs[:int(os.environ["VERIF_C19_JOBS"])]
     return jobs
@@ -693,8 +799,9 @@ def classify(rec: dict, nullable_head: bool = False) -> tuple[Optional[str], Opt
     # right derivation (the parser returns one tree per ambiguity) or walks a tree stitched together from two
     # derivations (an unfinished node force-completed next to a sibling predicted by another derivation)
     lost = real != code and not merged and rec.get("type_ambiguous", False)
-    corr = (real != code and not merged and not lost) or \
-        (rec["real_complete"] != rec["code_complete"] and not rec.get("type_ambiguous", False))
+    # (F40 - histories with a party-ambiguous type - no longer reproduces since ebdb490d: no exemption any more;
+    # `lost` only names the class in the message)
+    corr = (real != code and not merged) or rec["real_complete"] != rec["code_complete"]
     sig = what = None
     if real != nx:
         extra = [m for m in real if m not in nx]
@@ -748,7 +855,7 @@ def replay(path: str) -> int:
         return 0 if r.get("ok") else 1
     if kind in ("forecast", "slice"):
         job = {"idx": 0, "spec": rp["spec"], "depth": rp.get("depth", 6), "limit": rp.get("limit", 400),
-               "cap": rp.get("cap"), "slices": rp.get("slices", [])}
+               "cap": rp.get("cap"), "slices": rp.get("slices", []), "tree_budget": rp.get("tree_budget", 10 ** 9)}
         res = run_grammar(job)
         bad = []
         if res.get("crash"):
@@ -772,6 +879,12 @@ def replay(path: str) -> int:
             if s.get("projection_bad_n"):
                 bad.append(f"[sliced to {s['keep']}] visible part of a prefix is not a prefix of the sliced spec: "
                            + json.dumps(s["projection_bad"][:2]))
+            lp = s.get("leftrec_probe")
+            if lp and lp["raised"]:
+                bad.append(f"[sliced to {s['keep']}, left-recursive slice] predict raised {lp['raised']['error']} after "
+                           f"{lp['raised']['h']}")
+            if lp and lp["missing"]:
+                bad.append(f"[sliced to {s['keep']}, left-recursive slice] options missing: " + json.dumps(lp["missing"][:1]))
         for b in bad[:12]:
             print("FAILS:", b)
         print("replay:", "property violated" if bad else "no violation on the current tree")
@@ -788,7 +901,7 @@ def main(tier: str) -> int:
     lean = lean_check("Props.C19", ["drv_proto", "drv_ir"])
     jobs = make_jobs(run, tier)
     workers = min(16, os.cpu_count() or 4)
-    budget = 150 if tier == "quick" else 1300
+    budget = 220 if tier == "quick" else 1300     # backstop only; the work per grammar is bounded in steps (tree_budget)
     corr_failures: list = []
     slice_corr: list = []
     results: list[dict] = []
@@ -856,6 +969,7 @@ def main(tier: str) -> int:
             continue
         ex = r["explore"]
         run.count("grammars")
+        run.count("grammars_within_C19_code_forecast_initial(walkCert)", 1 if r["certs"].get("walk_cert") else 0)
         run.count("prefixes", r["n_prefixes"])
         run.count("complete_histories", r["n_complete"])
         run.count("predict_calls", ex["predicts"])
@@ -880,12 +994,13 @@ def main(tier: str) -> int:
                                                    "complete": r["n_complete"]})
         run.evaluations += max(0, ex["predicts"] - 1)
         base_replay = {"kind": "forecast", "spec": job["spec"], "depth": job["depth"], "limit": job["limit"],
-                       "cap": job.get("cap")}
+                       "cap": job.get("cap"), "tree_budget": job.get("tree_budget")}
         for e in ex["errors"]:
             report_once(SIG_GENERIC + "/raises", f"predict raised {e['error']} after {e['h']}",
                        dict(base_replay, history=e["h"], traceback=e.get("tb")))
         nh = r.get("nullable_head_in_open_rep", False)
         run.count("timeouts", ex.get("timeouts", 0))
+        run.count("prefixes_skipped(tree budget of the exploration used up)", ex.get("cases_skipped_tree_budget", 0))
         run.count("prefix_parse_exponentially_ambiguous(skipped,not judged)", ex.get("too_ambiguous", 0))
         for rec in ex["mismatch"]:
             sig, what, corr = classify(rec, nh)
@@ -912,16 +1027,41 @@ def main(tier: str) -> int:
                            f"real {s.get('real_rules')} model {s.get('model_rules')}",
                            dict(base_replay, kind="slice", slices=[[s["keep"], s["ignore_receivers"]]]),
                            no_input=True)     # correspondence; a property failure on it is reported by the projection check
+            run.count("slices_that_delete_rules(>1 round)", 1 if s.get("rules_deleted") else 0)
             run.count("slices_within_C19_slice_commutes(sliceCert)" if s.get("slice_cert") else
                       "slices_outside_C19_slice_commutes(sliceCert fails)")
             if not s.get("start_kept"):
                 run.count("slice_deleted_start")
+                continue
+            lp = s.get("leftrec_probe")
+            if lp is not None:
+                run.count("slices_left_recursive(spec is not)")
+                run.count("sliced_predict_calls", lp["predicts"])
+                sl_replay = dict(base_replay, kind="slice", slices=[[s["keep"], s["ignore_receivers"]]])
+                if lp["raised"] and lp["raised"]["error"].startswith("RecursionError"):
+                    run.count("violations:" + SIG_SLICE_LEFTREC)
+                    report_once(SIG_SLICE_LEFTREC,
+                               f"sliced to {s['keep']} (ignore_receivers={s['ignore_receivers']}) the spec has a unit/left "
+                               f"recursion at message level that the spec itself does not have (a right-recursive loop of "
+                               f"invisible messages became `<s> ::= <s> | ...`); predict on the sliced spec after "
+                               f"{lp['raised']['h']} raises {lp['raised']['error']}",
+                               dict(sl_replay, history=lp["raised"]["h"]))
+                elif lp["raised"]:
+                    report_once(SIG_GENERIC + "/raises", f"[sliced to {s['keep']}, left-recursive] predict raised "
+                               f"{lp['raised']['error']} after {lp['raised']['h']}", dict(sl_replay, history=lp["raised"]["h"]))
+                for miss in lp["missing"][:1]:
+                    run.count("violations:" + SIG_SLICE_ALT)
+                    report_once(SIG_SLICE_ALT + "/left-recursive-slice",
+                               f"[sliced to {s['keep']}, left-recursive] after the visible history {miss['h']} the forecaster "
+                               f"offers {miss['real']}; {miss['missing']} can follow (visible part of an enumerated prefix "
+                               f"of the spec)", dict(sl_replay, history=miss["h"]))
                 continue
             if "explore" not in s:
                 run.count("slice_skipped_hypotheses")
                 continue
             sx = s["explore"]
             run.count("sliced_predict_calls", sx["predicts"])
+            run.count("prefixes_skipped(tree budget of the exploration used up)", sx.get("cases_skipped_tree_budget", 0))
             run.evaluations += sx["predicts"]
             for e in sx["errors"]:
                 report_once(SIG_GENERIC + "/raises", f"[sliced to {s['keep']}] predict raised {e['error']} after {e['h']}",
@@ -968,6 +1108,6 @@ def main(tier: str) -> int:
         rule="generated protocol grammars (seq/alt/opt/star/plus/{n}/{n,m}/{n,}, nesting depth <= 3, 0-3 helper "
              "nonterminals incl. guarded right/mutual recursion, 2-3 parties, shared message types) x every prefix of "
              "every interaction up to the depth bound (breadth first, capped per grammar) x up to 2 real history "
-             "trees per prefix; + corpus of 10 hand-written specs; + 2 fixed probes; a grammar is non-trivial when it "
+             "trees per prefix; + corpus of 12 hand-written specs; + 2 fixed probes; a grammar is non-trivial when it "
              "has >= 4 prefixes; distinct by spec text",
         trusted_base=TRUSTED)
